@@ -283,8 +283,9 @@ impl TryFrom<u16> for WidthClass {
     type Error = String;
 
     fn try_from(value: u16) -> Result<Self, Self::Error> {
-        WidthClass::all_values()
-            .get((value - 1) as usize)
+        value
+            .checked_sub(1)
+            .and_then(|idx| WidthClass::all_values().get(idx as usize))
             .copied()
             .ok_or_else(|| format!("Unsupported width class value: '{value}'"))
     }
